@@ -85,12 +85,101 @@ package chpool
 //@   invariant -1 <= rangeindex && rangeindex < len(resources)
 
 // ---------------------------------------------------------------------------
+// C11: closing the pool.  The closure run by closeOnce stops the health checker first (close of
+// closeChan, then Wait on the group the checker is registered with) and only then closes the
+// underlying pool exactly once - puddle's Close destroys every idle resource and every resource
+// released afterwards (assumed), which is what "after the pool is closed and all handles are
+// released every connection has been closed" rests on.
+//@ contract (p *Pool) Close$1() props(C11)
+//@   requires *p != nil && p.pool != nil
+//@   modifies p.pool.closed, p.wg
+//@   ensures p.pool.closed {underlying-pool-closed}
+//@   ensures [internal] calls("puddle/v2.(*Pool).Close") == 1 {closed-exactly-once}
+//@ callsite puddle/v2.(*Pool).Close
+//@   assert calls("sync.(*WaitGroup).Wait") == 1 && calls("value:close") == 1 {health-checker-stopped-before-the-pool-is-closed}
+//@ callsite sync.(*WaitGroup).Wait
+//@   assert calls("value:close") == 1 {stop-signalled-before-waiting-for-the-checker}
+
+// C11: MinConns.  createIdleResources creates exactly resourcesCount resources or reports the
+// first failure; checkMinConns starts exactly one creating goroutine per missing resource (none
+// when the pool already has MinConns), and each such goroutine creates exactly one resource under
+// a bounded context.
+//@ contract (p *Pool) createIdleResources(ctx, resourcesCount) (err) props(C11)
+//@   requires p != nil && p.pool != nil
+//@   modifies p.pool.created, all(ctx)
+//@   ensures err == nil && resourcesCount > 0 ==> p.pool.created == old(p.pool.created) + resourcesCount {all-requested-resources-created}
+//@   ensures err == nil && resourcesCount <= 0 ==> p.pool.created == old(p.pool.created) {nothing-created-when-none-requested}
+//@   ensures p.pool.created <= old(p.pool.created) + resourcesCount || resourcesCount <= 0 {never-more-than-requested}
+//@ loop 0 (i)
+//@   modifies p.pool.created, all(ctx)
+//@   invariant 0 <= i && (i <= resourcesCount || i == 0) && p.pool.created == old(p.pool.created) + i
+
+//@ contract (p *Pool) checkMinConns() props(C11)
+//@   requires p != nil && p.pool != nil && p.options.MinConns >= 0
+//@   ensures [internal] p.options.MinConns > p.pool.total ==> calls("checkMinConns$1") == p.options.MinConns - p.pool.total {one-creation-per-missing-connection}
+//@   ensures [internal] p.options.MinConns <= p.pool.total ==> calls("checkMinConns$1") == 0 {nothing-created-when-MinConns-is-met}
+//@ loop 0 (i)
+//@   invariant p.options.MinConns > p.pool.total ==> 0 <= i && calls("checkMinConns$1") == p.options.MinConns - p.pool.total - i
+//@   invariant p.options.MinConns <= p.pool.total ==> i <= 0 && calls("checkMinConns$1") == 0
+
+//@ contract (p *Pool) checkMinConns$1() props(C11)
+//@   requires *p != nil && p.pool != nil
+//@   modifies p.pool.created
+//@   ensures p.pool.created <= old(p.pool.created) + 1 {at-most-one-resource-per-goroutine}
+//@   ensures [internal] calls("puddle/v2.(*Pool).CreateResource") == 1 {one-creation-attempt}
+//@ callsite puddle/v2.(*Pool).CreateResource
+//@   assert arg1.hasDl {creation-is-bounded-by-a-deadline}
+
+// C11: the background checker.  Every tick runs the idle-connection health check and then the
+// MinConns top-up, in that order and equally often; the only way out is the stop signal, after
+// which the ticker is stopped and the checker signs off from the wait group exactly once (Pool.Close
+// waits for that before it closes the underlying pool).
+//@ contract (p *Pool) backgroundHealthCheck() props(C11)
+//@   requires p != nil && p.pool != nil && p.options.MinConns >= 0 && p.options.HealthCheckPeriod > 0
+//@   modifies all(p.pool), p.wg
+//@   ensures [internal] calls("sync.(*WaitGroup).Done") == 1 {checker-signs-off-exactly-once}
+//@   ensures [internal] calls("time.(*Ticker).Stop") == 1 {ticker-stopped-on-the-way-out}
+//@ callsite time.NewTicker
+//@   assert arg0 == p.options.HealthCheckPeriod {ticks-at-the-configured-period}
+//@ callsite (*Pool).checkMinConns
+//@   assert calls("(*Pool).checkIdleConnsHealth") == calls("(*Pool).checkMinConns") + 1 {health-check-runs-before-the-MinConns-top-up-on-every-tick}
+//@ loop 0 ()
+//@   modifies all(p.pool)
+//@   invariant calls("(*Pool).checkIdleConnsHealth") == calls("(*Pool).checkMinConns") && calls("sync.(*WaitGroup).Done") == 0 && calls("time.(*Ticker).Stop") == 0
+
+// C11: option defaults - a zero value selects the documented default, anything else is kept; the
+// pool size handed to puddle is the configured maximum.
+//@ contract (o *Options) setDefaults() props(C11)
+//@   requires o != nil
+//@   modifies o.MaxConnLifetime, o.MaxConnIdleTime, o.MaxConns, o.HealthCheckPeriod
+//@   ensures old(o.MaxConnLifetime) != 0 ==> o.MaxConnLifetime == old(o.MaxConnLifetime) {lifetime-kept}
+//@   ensures old(o.MaxConnLifetime) == 0 ==> o.MaxConnLifetime == 3600000000000 {lifetime-default-one-hour}
+//@   ensures old(o.MaxConnIdleTime) != 0 ==> o.MaxConnIdleTime == old(o.MaxConnIdleTime) {idle-time-kept}
+//@   ensures old(o.MaxConnIdleTime) == 0 ==> o.MaxConnIdleTime == 1800000000000 {idle-time-default-thirty-minutes}
+//@   ensures old(o.MaxConns) != 0 ==> o.MaxConns == old(o.MaxConns) {max-conns-kept}
+//@   ensures old(o.HealthCheckPeriod) != 0 ==> o.HealthCheckPeriod == old(o.HealthCheckPeriod) {period-kept}
+//@   ensures old(o.HealthCheckPeriod) == 0 ==> o.HealthCheckPeriod == 60000000000 {period-default-one-minute}
+
+// ---------------------------------------------------------------------------
 // C12: the background health checker is registered with the pool's wait group by the goroutine
 // that starts it, before the `go` statement - Pool.Close waits on that group before it closes the
 // underlying pool, so an Add made by the checker itself could race with that Wait.
-//@ contract newPool(ctx, opt, dial) (p, err) props(C12)
+//@ -- C11: the size limit handed to puddle is the configured maximum (after defaults); once the
+//@ -- underlying pool exists every failing path closes it (so resources created for MinConns before
+//@ -- the failure are destroyed), and the connection acquired for the availability check of Dial
+//@ -- is given back.
+//@ contract newPool(ctx, opt, dial) (p, err) props(C11,C12)
 //@   requires ctx != nil
 //@   modifies all(ctx)
 //@   maypanic
+//@   ensures err != nil ==> p == nil [C11] {no-pool-on-failure}
+//@   ensures err == nil ==> p != nil && p.pool != nil [C11] {pool-on-success}
+//@   ensures [internal] err != nil && calls("createIdleResources") == 1 ==> calls("chpool.(*Pool).Close") == 1 [C11] {a-failed-start-closes-the-pool-it-created}
+//@   ensures [internal] err == nil ==> calls("chpool.(*Pool).Close") == 0 [C11] {a-started-pool-is-not-closed}
+//@   ensures [internal] err == nil && dial ==> calls("puddle/v2.(*Resource).Release") == 1 [C11] {availability-check-connection-given-back}
+//@ callsite puddle/v2.NewPool
+//@   assert arg0 != nil && arg0.MaxSize == p.options.MaxConns && (opt.MaxConns != 0 ==> arg0.MaxSize == opt.MaxConns) [C11] {pool-size-is-the-configured-maximum}
+//@ callsite (*Pool).createIdleResources
+//@   assert arg2 == p.options.MinConns [C11] {MinConns-resources-created-at-start}
 //@ callsite (*Pool).backgroundHealthCheck
 //@   assert calls("sync.(*WaitGroup).Add") == 1 {health-checker-registered-before-it-is-started}
